@@ -260,6 +260,55 @@ def hashKeyV (env : Env) : Val → Res Val
   | .atom .key s => .ok (.atom .keyHash (env.hashes.hashKey s))
   | _ => .stuck
 
+/-! ### Phase C: contracts and operations, in an environment without chain state (`Env` says nothing about the contracts at
+other addresses: an originated address is taken to hold a contract with the entrypoint and the type asked for; an implicit
+account has the entrypoint `default` of type `unit`, whatever the environment).  Address texts: `addrOf`, `epOf`, `mkAddr`
+(Syntax.lean). -/
+
+/-- the text of an address / handle with `%default` not written -/
+def normAddr (s : List Nat) : List Nat := if (s.dropWhile (· != 37)).drop 1 = defaultEp then addrOf s else s
+
+/-- ADDRESS: the address of a contract handle — with its entrypoint -/
+def addressV : Val → Res Val
+  | .contract _ s => .ok (.atom .address (normAddr s))
+  | _ => .stuck
+
+/-- IMPLICIT_ACCOUNT: the default handle (`contract unit`) of an implicit account (a key hash has no `%`: the text itself) -/
+def implicitAccountV : Val → Res Val
+  | .atom .keyHash s => .ok (.contract .unit (normAddr s))
+  | _ => .stuck
+
+/-- the entrypoint `CONTRACT %eI` means on an address naming `eA`: one of the two has to be `default` -/
+def resolveEp (eA eI : List Nat) : Option (List Nat) :=
+  if eA = defaultEp then some eI else if eI = defaultEp then some eA else none
+
+/-- `CONTRACT %eI t` -/
+def contractV (t : Ty) (eI : List Nat) : Val → Res Val
+  | .atom .address s =>
+    match resolveEp (epOf s) eI with
+    | none => .ok (.none (.contract t))
+    | some ep =>
+      if isImplicit (addrOf s) then
+        .ok (if ep = defaultEp ∧ t = .unit then .some (.contract t (normAddr (addrOf s ++ 37 :: ep))) else .none (.contract t))
+      else .ok (.some (.contract t (normAddr (addrOf s ++ 37 :: ep))))
+  | _ => .stuck
+
+/-- SET_DELEGATE: a delegation operation of the running contract -/
+def setDelegateV (env : Env) : Val → Res Val
+  | .none .keyHash => .ok (.opDelegate env.self none)
+  | .some (.atom .keyHash s) => .ok (.opDelegate env.self (some s))
+  | _ => .stuck
+
+/-- `EMIT %tag t`: an event operation carrying a payload of type `t` -/
+def emitV (env : Env) (tag : List Nat) (t : Ty) (v : Val) : Res Val :=
+  if typeOf v = t then .ok (.opEmit env.self tag t v) else .stuck
+
+/-- TRANSFER_TOKENS: a transaction of `m` mutez with parameter `p` to the entrypoint the handle names -/
+def transferTokensV (env : Env) : Val → Val → Val → Res Val
+  | p, .num .mutez m, .contract t s =>
+    if typeOf p = t then .ok (.opTransfer env.self (addrOf s) (epOf s) m p t) else .stuck
+  | _, _, _ => .stuck
+
 /-- **extension 2, rules of the form `i / a : S ⇒ r : S`**.  `NEVER` has no rule (there is no value of type `never`). -/
 def unV (env : Env) (i : Instr) (a : Val) : Res Val :=
   match i with
@@ -267,9 +316,18 @@ def unV (env : Env) (i : Instr) (a : Val) : Res Val :=
   | .BYTES => bytesV a
   | .VOTING_POWER => votingPowerV env a
   | .HASH_KEY => hashKeyV env a
+  | .ADDRESS => addressV a
+  | .IMPLICIT_ACCOUNT => implicitAccountV a
+  | .CONTRACT t ep => contractV t ep a
+  | .SET_DELEGATE => setDelegateV env a
+  | .EMIT tag t => emitV env tag t a
   | _ => .stuck
 
 def stepExt (env : Env) : Instr → List Val → Res (List Val)
+  -- `SELF %ep`: the handle on entrypoint `ep` (of type `t`) of the running contract
+  | .SELF ep t, st => .ok (.contract t (normAddr (env.self ++ 37 :: ep)) :: st)
+  | .TRANSFER_TOKENS, a :: b :: c :: st => (transferTokensV env a b c).bind fun r => .ok (r :: st)
+  | .TRANSFER_TOKENS, _ => .stuck
   | i, a :: st => (unV env i a).bind fun r => .ok (r :: st)
   | _, [] => .stuck
 
